@@ -98,6 +98,13 @@ def table(res, gen_text, clauses):
             if d.get('level') == 'error' and 'aborting' not in d.get('message', ''):
                 sp = d.get('spans') or [{}]
                 out['fatal'].append('%s (generated line %s)' % (d.get('message'), sp[0].get('line_start')))
+    # rustc level errors (an annotation that no longer type checks, a call to something that does not exist): nothing was verified
+    for d in res.get('diags', []):
+        code = (d.get('code') or {}).get('code') if isinstance(d.get('code'), dict) else None
+        if d.get('level') == 'error' and code and re.match(r'E\d+', code):
+            sp = d.get('spans') or [{}]
+            prim = [x for x in sp if x.get('is_primary')] or sp
+            out['fatal'].append('%s [%s] (generated line %s)' % (d.get('message'), code, prim[0].get('line_start')))
     for m in j['times-ms'].get('smt', {}).get('smt-run-module-times', []):
         for f in m.get('function-breakdown', []):
             n = norm(f['function'])
